@@ -94,7 +94,7 @@ def gen(seed, run, tier='quick'):
                         # a converter that retires: when consulted for this
                         # pair it unregisters itself and declines
                         table[f"{a}{b}"] = ['expire']
-                    elif x < 0.72 and kind in ('stub', 'unhashable'):
+                    elif x < 0.82 and kind in ('stub', 'unhashable'):
                         # a converter that takes OTHERS out of service when
                         # it is consulted for this pair (one of the others,
                         # both, or one of them and itself) and declines
@@ -102,6 +102,12 @@ def gen(seed, run, tier='quick'):
                         table[f"{a}{b}"] = ['evict', rng.choice(
                             [[others[0]], [others[1]], others,
                              [others[0], k], [k, others[1]]])]
+                        if len(table[f"{a}{b}"][1]) == 1 and \
+                                rng.random() < 0.5:
+                            # ... and puts the third one into service (if
+                            # that one has nothing to say about this pair)
+                            table[f"{a}{b}"].append(
+                                3 - k - table[f"{a}{b}"][1][0])
         gconvs.append({'kind': kind, 'table': table})
     if rng.random() < 0.3:
         # twins among the generic converters, too
@@ -488,6 +494,9 @@ def execute(h):
                         G.remove_converter(gref(j))
                     except ValueError:
                         pass
+                if len(e) > 2 and ganswers[e[2]][
+                        (int(key[0]), int(key[1]), 0)][0] == 'none':
+                    G.register_converter(gref(e[2]))
                 return None
             if e[0] == 'amtf':
                 return float(qty.amount) * float(e[1])
@@ -615,7 +624,8 @@ def execute(h):
         if spec is not None and spec.get(f"{a}{b}", [None])[0] == 'expire':
             return ('expire',)      # not called here: it would unregister
         if spec is not None and spec.get(f"{a}{b}", [None])[0] == 'evict':
-            return ('evict', list(spec[f"{a}{b}"][1]))
+            return ('evict', list(spec[f"{a}{b}"][1])) + tuple(
+                spec[f"{a}{b}"][2:])
         if spec is not None and spec.get(f"{a}{b}", [None])[0] == 'via':
             # depends on what is registered when it is asked
             return ('via', int(spec[f"{a}{b}"][1]), spec[f"{a}{b}"][2])
@@ -692,6 +702,7 @@ def execute(h):
 
     expired = []
     evicted = []
+    enlisted = []
 
     def string_form(p):
         sf = cfg.get('string_form', 0)
@@ -716,6 +727,9 @@ def execute(h):
                         expired.append(j)
                         if j != gi:
                             evicted.append(j)
+                if len(a) > 2 and ganswers[a[2]][(p[0], p[1], 0)][0] == \
+                        'none':
+                    enlisted.append(a[2])
                 skipped += 1
                 continue
             if a[0] == 'expire':
@@ -941,6 +955,7 @@ def execute(h):
             vec.append(o)
             del expired[:]
             del evicted[:]
+            del enlisted[:]
             e, skipped = expected_generic(p)
             for gi in expired:
                 if gi in glist:
@@ -948,6 +963,10 @@ def execute(h):
                     bump(faults, 'converter_unregistered_another_mid_lookup'
                          if gi in evicted else
                          'converter_unregistered_itself_mid_lookup')
+            for gi in enlisted:
+                if gi not in glist:
+                    glist.append(gi)
+                    bump(faults, 'converter_registered_another_mid_lookup')
             if e[0] == 'unjudged':
                 bump(probes, 'stub_raised_when_consulted')
                 continue
